@@ -23,8 +23,10 @@ META = {'title': 'Loading a well-formed SNA/SZX/SCR file yields exactly the desc
                  '"at the HALT" (libspectrum), the adjudication accepts either',
                  'the Kempston *joystick* (KEYB chunk), MEMPTR/Q, the frame T-state counter and the beeper level are '
                  'compared against the model only: the property does not name them',
-                 'audible AY state is observed as a class (silent / three well separated pitches) of one frame of '
-                 'generated audio, and as the register file the sound generator holds in the model',
+                 'audible AY state is observed as an amplitude/pitch contour class (silent, burst, steady, three '
+                 'pitches) of the audio generated from the return of the load on, and modelled as the register '
+                 'file of the sound generator plus whether its envelope generator is at the start of its shape; '
+                 'where the envelope stands relative to the SZX frame clock is left open (notes/C14.md)',
                  'the receiving emulator is in a reachable state: sound-chip register file of 14 bytes, 48K machine '
                  'with paging disabled'],
  'design_ref': 'DESIGN.md section 8, C14',
